@@ -26,7 +26,8 @@ BASE = dict(
     max_depth=6,
     w_stmt=dict(sync=0, orphan=0, raise_=0.2, try_=1.6, ret=0.2),
     w_leaf=dict(call=7, item=4, err=0.4, junk=0.05, lazy=0.4, again=0.6, dbg=0.0, const=1.0),
-    lazy_modes=["ok", "ok", "raise"],
+    lazy_modes=["ok", "sync", "sync", "raise"],
+    p_ctx_sync=0.15,
     p_try_raise=0.3,
     ctxs=["actx", "ov", "attr"],
 )
